@@ -22,6 +22,7 @@ Engine E1 (product-space enumeration), two families of units.
 """
 import itertools
 import math
+import re
 import traceback
 
 import numpy as np
@@ -38,7 +39,8 @@ RULE = (
     "layout x base spectrum (impulse per bin, bimodal pair per separation, off-centre lobe per bin) x every "
     "rotation k in 0..N-1 x {original, mirror image} x 4 bands. Named restriction 'scalar_layout_subset': layout () "
     "runs 1d: the 101 single-point patterns with word (1,3,0,1) and all 81 words with one alternating pattern, on "
-    "13 bands; 2d: two bases (one impulse base, one lobe base) with every rotation and mirror on 2 bands. A case "
+    "5 bands; 2d: two bases (one impulse base, one lobe base; N>=72: the lobe base) with every rotation and mirror "
+    "on 2 bands. A case "
     "(member, band) is non-trivial when the band holds energy (reference m0 > 0) and the reference resultant "
     "exceeds 1e-9, so that direction AND spread are compared; distinct cases are counted once (in the (time) layout)."
 )
@@ -115,9 +117,7 @@ def band_table():
     return [None] + [(a, b) for a in lo for b in hi]
 
 
-SCALAR_BANDS_1D = [None, (0.0, 0.05), (0.05, 0.1), (0.05, 0.2), (0.05, float(np.nextafter(0.2, 1))), (0.075, 0.35),
-                   (0.1, 0.35), (0.1, float("inf")), (0.2, 0.4), (0.35, float("inf")), (0.2, 0.1), (0.4, float("inf")),
-                   (0.0, float("inf"))]
+SCALAR_BANDS_1D = [None, (0.05, float(np.nextafter(0.2, 1))), (0.1, 0.35), (0.2, 0.1), (0.35, float("inf"))]
 
 
 def band_mask(band):
@@ -206,6 +206,7 @@ class Reporter:
     def __call__(self, check, what, **key_and_detail):
         k = self.n.get(check, 0)
         self.n[check] = k + 1
+        what = re.sub(r"np\.(?:float64|int64|bool_?)\(([^()]*)\)", r"\1", what)
         if k < self.cap:
             key = dict(self.base, check=check)
             detail = {}
@@ -483,7 +484,7 @@ def run_2d(unit):
     c.cat("layout_" + layout)
     bases = bases2d(theta)
     if layout == "scalar":
-        bases = [b for b in bases if b[0] in (("imp", 1), ("lobe", 0))]
+        bases = [b for b in bases if b[0] in ((("imp", 1), ("lobe", 0)) if N < 72 else (("lobe", 0),))]
         bands = BANDS_2D[:2]
         per = 1
     else:
